@@ -294,7 +294,7 @@ theorem tie_candidates_shape : ContainFns.candidates_shape =
 theorem tie_uniqueInts_shape : ContainFns.uniqueInts_shape =
     "var edges []int; m := make(map[int]bool); range _, i := in {if cond0(m[i]) {continue}; m[i] = true; edges = append(edges, i)}; sort.Ints(edges); return edges" := rfl
 theorem tie_candidatesEdgeMap_shape : ContainFns.candidatesEdgeMap_shape =
-    "edgeMap := make(EdgeMap); if cond0(len(c.index.shapes)) {shape := c.index.Shape(0); edgeMap[shape] = c.candidates(a, b, shape); return edgeMap}; c.getCellsForEdge(a, b); if cond1(len(c.cells)) {return edgeMap}; range _, cell := c.cells {range _, clipped := cell.shapes {s := c.index.Shape(clipped.shapeID); for[j := 0] cond2(j, clipped.numEdges()) [j++] {edgeMap[s] = append(edgeMap[s], clipped.edges[j])}}}; if cond3(len(c.cells)) {range s, edges := edgeMap {edgeMap[s] = uniqueInts(edges)}}; return edgeMap" := rfl
+    "edgeMap := make(EdgeMap); if cond0(len(c.index.shapes)) {var shape Shape; range _, s := c.index.shapes {shape = s}; edgeMap[shape] = c.candidates(a, b, shape); return edgeMap}; c.getCellsForEdge(a, b); if cond1(len(c.cells)) {return edgeMap}; range _, cell := c.cells {range _, clipped := cell.shapes {s := c.index.Shape(clipped.shapeID); for[j := 0] cond2(j, clipped.numEdges()) [j++] {edgeMap[s] = append(edgeMap[s], clipped.edges[j])}}}; if cond3(len(c.cells)) {range s, edges := edgeMap {edgeMap[s] = uniqueInts(edges)}}; return edgeMap" := rfl
 theorem tie_getCells_shape : ContainFns.getCells_shape =
     "aUV, bUV, ok := ClipToFace(a, b, root.id.Face()); if cond0(ok) {c.a = aUV; c.b = bUV; edgeBound := r2.RectFromPoints(c.a, c.b); if cond1(root.Bound().Intersects(edgeBound)) {c.computeCellsIntersected(root, edgeBound)}}; if cond2(len(c.cells)) {return nil}; return c.cells" := rfl
 theorem tie_getCellsForEdge_shape : ContainFns.getCellsForEdge_shape =
